@@ -370,6 +370,7 @@ class World(object):
             'ghost': NativeFunc('ghost', _ghost),
             'assume': NativeFunc('assume', lambda ex, a, k: ex.assume(ex.truth(a[0]))),
             'require': NativeFunc('require', _require),
+            'same_entries': NativeFunc('same_entries', _same_entries),
         })
         return mods
 
@@ -477,6 +478,30 @@ def _require(ex, a, k):
             caller = fr.func.qualname
             break
     ex.oblige('%s/call-pre:%s' % (caller, a[1]), ex.truth(a[0]), detail='interface precondition ' + str(a[1]))
+
+
+def _same_entries(ex, a, k):
+    """frame condition on a table: every entry except index `skip` is
+    unchanged (same None-ness; entries never inspected are trivially unchanged)"""
+    new, old, skip = a[0], a[1], a[2]
+    ni, oi = new.items, old.items
+    if len(ni) != len(oi):
+        return False
+    acc = []
+    for i in range(len(ni)):
+        x, y = ni[i], oi[i]
+        if isinstance(x, LazyVal) and not x.forced and isinstance(y, LazyVal) and (y.link is x or y is x):
+            continue
+        xv, yv = force(ex, x), force(ex, y)
+        same = (xv is None) == (yv is None)
+        if same:
+            continue
+        if isinstance(skip, int):
+            if i != skip:
+                return False
+        else:
+            acc.append(mk_bool(zint(skip) == i))
+    return N.vand(ex, acc) if acc else True
 
 
 def _ghost(ex, a, k):
